@@ -224,12 +224,6 @@ Proof. unfold vs. rewrite <- names_of_views. exact Hwf. Qed.
 Lemma gzlen_vs : zlen vs = zlen rows.
 Proof. unfold vs, views, zlen. rewrite map_length. reflexivity. Qed.
 
-Let Hget : forall i, 0 <= i < zlen vs -> get_symbol img c i = Ok (vth vs i).
-Proof.
-  intros i Hi. apply (get_symbol_exact le is64 es rows strtab img off size stroff Hok Hnames Hsym Hstr).
-  rewrite gzlen_vs in Hi. exact Hi.
-Qed.
-
 Lemma chain_len : zlen (gt_chain T) = zlen vs - so.
 Proof.
   destruct (wf_gnu_ranges _ _ _ Hwf') as [_ [_ [_ [_ [_ [_ [_ H]]]]]]]. rewrite H.
@@ -239,7 +233,7 @@ Qed.
 Let Hrc : forall i, so <= i < zlen vs -> read_chain_word le img P i = Ok (zth (gt_chain T) (i - so)).
 Proof.
   intros i Hi. destruct (wf_gnu_ranges _ _ _ Hwf') as [_ [_ [_ [_ [_ [_ [Hw _]]]]]]].
-  apply (read_chain_word_ok le is64 img hoff T i Hw Hhash). rewrite chain_len. fold so. lia.
+  apply (read_chain_word_ok le is64 img hoff T i Hw Hhash). rewrite chain_len. fold so. clear - Hi. lia.
 Qed.
 
 Let Hfuel : (Z.to_nat (zlen vs - so) <= gnu_fuel img)%nat.
@@ -249,6 +243,12 @@ Lemma gnu_init : gnu_hash_init le is64 img hoff = Ok P.
 Proof.
   destruct (wf_gnu_ranges _ _ _ Hwf') as [H1 [H2 [H3 [H4 [H5 [H6 _]]]]]].
   apply gnu_hash_init_ok; assumption.
+Qed.
+
+Let Hget : forall i, 0 <= i < zlen vs -> get_symbol img c i = Ok (vth vs i).
+Proof.
+  intros i Hi. apply (get_symbol_exact le is64 es rows strtab img off size stroff Hok Hnames Hsym Hstr).
+  rewrite gzlen_vs in Hi. exact Hi.
 Qed.
 
 Lemma gnu_section_unfold q :
@@ -283,7 +283,7 @@ Proof.
 Qed.
 
 Theorem gnu_section_count : gnu_hash_section_number_of_symbols img c hoff = Ok (zlen rows).
-Proof.
+Proof using Hwf Hhash Hrc.
   unfold gnu_hash_section_number_of_symbols, c. cbn [c_le c_is64]. rewrite gnu_init. cbn [bind].
   rewrite <- gzlen_vs.
   apply (gnu_count_exact is64 T vs _ (gnu_chain_pos is64 T hoff) Hwf' Hrc _ Hfuel).
